@@ -46,6 +46,14 @@ fn cmp<P: PartialEq + std::fmt::Debug>(got: &quake::Response<P>, exp: &quake::Re
 
 impl Check for C05 {
     fn id(&self) -> &'static str { "C05" }
+    fn memcheck_plan(&self, tier: Tier) -> Option<(crate::core::framework::MemMode, Vec<(u64, u64)>)> {
+        if tier != Tier::Thorough {
+            return None;
+        }
+        let total = self.total_cases(tier);
+        let n = 1000u64.min(total / 16);
+        Some((crate::core::framework::MemMode::Harness, (0 .. 16).map(|i| (i * (total / 16), n)).collect()))
+    }
     fn miri_plan(&self, tier: Tier) -> Option<Vec<(u64, u64)>> {
         if tier != Tier::Thorough {
             return None;
